@@ -10,7 +10,7 @@ from vf.run import SubCheck
 from gbasis.evals.electrostatic_potential import electrostatic_potential
 
 RULE = ("Hypothesis draws bases of 1-3 generalized mixed-type shells (l 0..3), a symmetric density matrix, 1-6 points "
-        "including points exactly on nuclei, 1-4 nuclei (on shell centres or elsewhere, pairwise distinct) with charges of "
+        "including points exactly on nuclei, 1-5 nuclei (on shell centres or elsewhere, pairwise distinct) with charges of "
         "either sign and |Z| 0.1..100, a square or rectangular transformation (gamma sized K_orb), and a threshold from "
         "{0, (1-1e-6)d, (1+1e-6)d for a drawn point-nucleus distance d, between the two smallest distances, beyond the "
         "largest}.  Oracle: sum over nuclei with d >= threshold of Z/d minus sum_ab gamma_ab (ab|1/|r-R|) with R2 integrals; "
@@ -30,7 +30,7 @@ def case_st(draw):
     for s in shells:
         if s["coord"] not in cents:
             cents.append(s["coord"])
-    nn = draw(st.integers(1, 4))
+    nn = draw(st.integers(1, 5))
     nuc = []
     for i in range(nn):
         if i < len(cents) and draw(st.integers(0, 3)) > 0:
